@@ -305,8 +305,9 @@ PROPS['C03'] = {
 
 WINM = 'harness.corr_win'
 PROPS['C14'] = {
-    'targets': ['GridVerse.Props.C14', 'GridVerse.Props.C14Teleport', 'GridVerse.Props.C14Rooms', 'GridVerse.Props.C14Crossing', 'GridVerse.Props.C14Obstacles', 'GridVerse.Props.C14MemoryRooms'],
-    'theorem_files': [('GridVerse/Props/C14.lean', 'C14_'), ('GridVerse/Props/C14Teleport.lean', 'C14_'), ('GridVerse/Props/C14Rooms.lean', 'C14_'), ('GridVerse/Props/C14Crossing.lean', 'C14_'), ('GridVerse/Props/C14Obstacles.lean', 'C14_'), ('GridVerse/Props/C14MemoryRooms.lean', 'C14_')],
+    'targets': ['GridVerse.Props.C14', 'GridVerse.Props.C14Teleport', 'GridVerse.Props.C14Rooms', 'GridVerse.Props.C14Crossing', 'GridVerse.Props.C14Obstacles', 'GridVerse.Props.C14MemoryRooms', 'GridVerse.Props.C14Shipped'],
+    'extract': ('tables', 'configs'),
+    'theorem_files': [('GridVerse/Props/C14.lean', 'C14_'), ('GridVerse/Props/C14Teleport.lean', 'C14_'), ('GridVerse/Props/C14Rooms.lean', 'C14_'), ('GridVerse/Props/C14Crossing.lean', 'C14_'), ('GridVerse/Props/C14Obstacles.lean', 'C14_'), ('GridVerse/Props/C14MemoryRooms.lean', 'C14_'), ('GridVerse/Props/C14Shipped.lean', 'C14_')],
     'audit_prefix': 'C14_',
     'families': {
         'quick': [(WINM, 'fam_win_theorem_plans', 1920, 16), (WINM, 'fam_win_solver', 960, 16), (WINM, 'fam_win_real_plans', 640, 16), (RESETM, 'fam_splits', 0, 16), (RESETM, 'fam_reset_random', 4000, 16), (CORE, 'fam_trans_random', 3000, 16), (CORE, 'fam_term', 2000, 16)],
